@@ -335,7 +335,7 @@ func checkWire(c *core.Check, which string) {
 	rng := rand.New(rand.NewSource(c.Seed))
 	nOps, perPkg, nSeeds := 120, 20, 5
 	if thorough {
-		nOps, nSeeds = 800, 20
+		nOps, nSeeds = 3000, 20
 	}
 	// pre-flight every operation on its own
 	type cand struct {
